@@ -2,7 +2,7 @@ ID = "C11"
 LEVEL = "other"
 COQ_TARGETS = ["Props/Properties_C11.vo", "Extract/ExtractPromise.vo"]
 PROPS_FILES = ["Props/Properties_C11.v"]
-VARIANT = "asfound"
+VARIANT = "fixed"
 RUNS = [dict(name="promise", harness="c11", driver="promise", model_ml="promise_model",
              driver_args=["-variant", VARIANT])]
 EXPLANATION = ("Theorems over all operation lists and all interleavings of the small-step model coq/Promise/Promise.v of "
